@@ -113,7 +113,24 @@ SEEDS.update({
                   caught_by="block-wise corrector check on composites with mixed bounded / unbounded parts"),
     "C14_2": dict(change="Mixture.generate enumerates the counts of the components that were drawn, renumbering them from 0",
                   needs="a component (not the last) missing from the batch: zero / tiny weight or a very small batch",
-                  caught_by="push-forward check of Mixture.generate against the generator's recorded choice (added after this seed was first missed)"),})
+                  caught_by="push-forward check of Mixture.generate against the generator's recorded choice (added after this seed was first missed)"),    "C15_2": dict(change="sparse-G / full-covariance back end caches the residual keyed on the identity of the coordinates array",
+                  needs="the same ndarray evaluated, changed in place, evaluated again",
+                  caught_by="in-place re-evaluation of the same array (added after this seed was first missed)"),
+    "C16_2": dict(change="HMC caches the schedule weights (i+1)^(-learning_rate), rebuilt only when the number of proposals changes",
+                  needs="the same HMC object making a second autotuned run with the same number of proposals and another learning rate",
+                  caught_by="runs on a reused sampler object with another learning rate (added shortly before / for this seed)"),
+    "C17_2": dict(change="constructors reshape (stations, events) input instead of transposing it",
+                  needs="data or per-datum sigmas passed station-major with events != stations, both >= 2",
+                  caught_by="station-major input layouts (added after this seed was first missed)"),
+    "C18_2": dict(change="forward() caches the last model by reference and returns the cached travel-time array",
+                  needs="forward(m), m changed in place, forward(m) again (or the caller changing the returned array)",
+                  caught_by="repeated forward() on the same object and model array (added after this seed was first missed)"),
+    "C19_2": dict(change="gradient_descent's NaN/inf guard tests the updated model instead of its misfit",
+                  needs="strictly_monotonic=False and a step with finite coordinates but non-finite misfit (leaving a bounded target, overflow)",
+                  caught_by="nonfinite-returned oracle and bit-exact co-execution (a statistics line of the harness crashed on the unexpected call order and was made robust)"),
+    "C20_2": dict(change="controller shallow-copies the samplers and re-creates their generators from the seed sequence",
+                  needs="a sampler whose generator has advanced (an earlier run) before being handed to the controller",
+                  caught_by="samplers with an earlier run handed to the controller, compared with stand-alone runs of deep copies"),})
 
 
 def main():
